@@ -1,13 +1,14 @@
 """C09 - credential and PKI parsers are memory-safe and total on arbitrary bytes (PARTIAL claim).
 
 Theorems: coq/Properties/Properties_C09.v over coq/Asn/AsnModel.v (ASN.1 primitives of asn1.c,
-parseGeneralNames, psX509GetDNAttributes, psBase64decode, PEM framing), for ALL byte strings.
+parseGeneralNames, psX509GetDNAttributes, psBase64decode, PEM framing incl. the Proc-Type / DEK-Info headers of encrypted PEM), for ALL byte strings.
 Tie: harness/h_asn.c (AddressSanitizer+UBSan build AND plain build of /repo's working tree) and the
 extracted model ocaml/drv_c09.ml on the same structure-aware cases; a model `Fault` must coincide
 with a sanitizer abort of the library (result line FAULT) and vice versa.
 Exploration only (no theorem): the whole parsers psX509ParseCert/CertData, psX509ParseCRL,
 psOcspParseResponse, psPkcs8ParsePrivBin, psPkcs12ParseMem, psPkcs3ParseDhParamBin,
-psParseUnknownPubKeyMem/PrivKeyMem, matrixSslLoadKeysMem on ASN.1-aware mutations of every sample
+psParseUnknownPubKeyMem/PrivKeyMem, matrixSslLoadKeysMem / LoadRsaKeysMem / LoadEcKeysMem (own, foreign and
+mismatched certificate/key pairs, chains, CA bundles), the file-based encrypted-key entry points, on ASN.1-aware mutations of every sample
 credential under /repo/testkeys, under the sanitizers, with an object-consistency walker.
 """
 import json, os, re, sys, threading, time
@@ -15,7 +16,7 @@ import vlib
 sys.path.insert(0, os.path.join(vlib.VERIF, "tools"))
 import der
 
-WRAPS = ["malloc", "calloc", "realloc", "free", "psGetBrokenDownGMTime"]
+WRAPS = ["malloc", "calloc", "realloc", "free", "psGetBrokenDownGMTime", "psDes3Init", "psAesInitCBC"]
 ASAN_ENV = dict(os.environ, ASAN_OPTIONS="detect_leaks=0:allocator_may_return_null=1:abort_on_error=0:symbolize=1",
                 UBSAN_OPTIONS="print_stacktrace=0:halt_on_error=1")
 EXPLORED_ONLY = [
@@ -23,7 +24,8 @@ EXPLORED_ONLY = [
     "psX509ParseCertData / psPemCertBufToList callers", "psX509ParseCRL (crl.c 875-1200)", "psOcspParseResponse / ocspParseBasicResponse (x509.c 6231-6990)",
     "psPkcs8ParsePrivBin, PBES2 / PKCS#5 decryption (pkcs.c)", "psPkcs12ParseMem (pkcs.c)", "psPkcs3ParseDhParamBin (dh_params.c)",
     "psRsaParsePkcs1PrivKey, psRsaParseAsnPubKey, psEccParsePrivKey, getEcPubKey, psEd25519 parsers (pubkey/*_parse_mem.c)",
-    "psParseUnknownPubKeyMem / psParseUnknownPrivKeyMem", "matrixSslLoadKeysMem (matrixsslKeys.c)", "encrypted-PEM path of psPemDecode (DEK-Info, PBKDF1, 3DES/AES)",
+    "psParseUnknownPubKeyMem / psParseUnknownPrivKeyMem", "matrixSslLoadKeysMem / matrixSslLoadRsaKeysMem / matrixSslLoadEcKeysMem identity and trust-anchor loading (matrixsslKeys.c): scenario runs, no model",
+    "PBKDF1 key derivation and 3DES/AES decryption of an encrypted PEM body (the header / IV / framing part IS modelled: pem_decode_pw)", "psPkcs1ParsePrivFile / psPkcs1DecodePrivFile / psPemFileToDer (file entry points)",
     "psParseBuf readers (core/src/psbuf.c) - not modelled, reached only through the parsers above",
     "time/validity parsers (getTimeValidity, psBrokenDownTimeImport)", "OID database lookup (checkAsnOidDatabase): *oi is not compared", "allocation failure paths (C19)",
 ]
@@ -474,6 +476,181 @@ def gen_pem(ck, r, budget, sample_cert):
     return cases
 
 
+# ------------------------------------------------------------------------------------------- generators: encrypted PEM headers
+PW = ["NULL", "-", "7665726966", "77726f6e67"]
+
+def enc_pem(cipher="DES-EDE3-CBC", iv="0011223344556677", body=16, nl=b"\n", order="pdb", label=b"RSA PRIVATE KEY", proc=b"Proc-Type: 4,ENCRYPTED",
+            tail=b"", pre=b""):
+    """order: sequence of p (Proc-Type line) d (DEK-Info line) b (blank line); tail / pre = bytes after END / before BEGIN"""
+    import base64
+    dek = b"DEK-Info: " + (cipher if isinstance(cipher, bytes) else cipher.encode()) + b"," + (iv if isinstance(iv, bytes) else iv.encode())
+    raw = body if isinstance(body, bytes) else bytes((i * 29 + 7) & 0xFF for i in range(body))
+    b64 = base64.b64encode(raw)
+    lines = [b"-----BEGIN " + label + b"-----"]
+    for o in order:
+        lines.append({"p": proc, "d": dek, "b": b""}[o])
+    lines += [b64[i:i + 64] for i in range(0, len(b64), 64)] or [b""]
+    lines.append(b"-----END " + label + b"-----")
+    return pre + nl.join(lines) + nl + tail
+
+def gen_pempw(ck, r, budget, samples):
+    cases = []
+    def add(pw, t, kind):
+        cases.append("pempw %s %s" % (pw, hx(t))); ck.count("pempw:" + kind)
+    HEX = "0123456789abcdefABCDEF0011223344556677889900aabbccdd"
+    ciphers = ["DES-EDE3-CBC", "AES-128-CBC", "AES-256-CBC", "DES-CBC", "AES-128-CBC ", "aes-128-cbc", ""]
+    # IV digit counts 0..40 for both ciphers: in place, and as the LAST bytes of the buffer (DEK-Info after the END line,
+    # nothing behind the digits) so that a bound that is too small reads past the block
+    for cipher in ("DES-EDE3-CBC", "AES-128-CBC"):
+        for k in range(0, 41):
+            iv = HEX[:k]
+            for pw in ("7665726966", "NULL"):
+                add(pw, enc_pem(cipher, iv, 16), "iv-count")
+                base = enc_pem(cipher, HEX[:32], 16, order="pb")      # Proc-Type only ...
+                add(pw, base + b"DEK-Info: " + cipher.encode() + b"," + iv.encode(), "dek-after-end-exact")
+            add("7665726966", enc_pem(cipher, iv, 16, order="pb", pre=b"DEK-Info: " + cipher.encode() + b"," + iv.encode()), "dek-before-begin")
+            add("-", enc_pem(cipher, iv, 0, order="pd"), "iv-count-empty-body")
+        for k in (0, 1, 7, 8, 15, 16, 17, 31):      # non-hex character inside the digits
+            for ch in ("g", "G", " ", "\n", "-", "\x00", "/", ":", "@", "`"):
+                iv = HEX[:k] + ch + HEX[k + 1:34]
+                add("7665726966", enc_pem(cipher, iv, 16), "iv-nonhex")
+    # cipher names, body sizes around the block sizes, newline styles, header orders, passwords
+    for cipher in ciphers:
+        for body in (0, 1, 7, 8, 9, 15, 16, 17, 24, 31, 32, 33, 48, 64):
+            add("7665726966", enc_pem(cipher, HEX[:32], body), "cipher-x-body")
+        for nl in (b"\n", b"\r\n", b"\r"):
+            for order in ("pdb", "dpb", "pd", "dp", "db", "pb", "p", "d", "b", "", "pdd", "ppdb", "dbp", "bpd"):
+                for pw in PW[:3]:
+                    add(pw, enc_pem(cipher, HEX[:32], 16, nl=nl, order=order), "order")
+    both = lambda a, b: enc_pem(a, HEX[:32], 16, order="pb", pre=b"DEK-Info: " + b.encode() + b"," + HEX[:32].encode() + b"\n")
+    for a, b in (("DES-EDE3-CBC", "AES-128-CBC"), ("AES-128-CBC", "DES-EDE3-CBC")):
+        add("7665726966", both(a, b), "two-dek"); add("7665726966", enc_pem(a, HEX[:32], 16) + b"DEK-Info: " + b.encode() + b"," + HEX[:20].encode(), "two-dek")
+    for proc in (b"Proc-Type: 4,ENCRYPTE", b"Proc-Type:", b"4,ENCRYPTED", b"Proc-Type: 4,ENCRYPTED" * 2, b"proc-type: 4,encrypted", b"Proc-Type: 5,ENCRYPTED"):
+        add("7665726966", enc_pem(proc=proc), "proc-variants"); add("NULL", enc_pem(proc=proc), "proc-variants")
+    for label in (b"PRIVATE KEY", b"EC PRIVATE KEY", b"PUBLIC KEY", b"CERTIFICATE", b"X509 CRL"):
+        add("7665726966", enc_pem(label=label), "label"); add("7665726966", enc_pem("AES-128-CBC", HEX[:32], 32, label=label), "label")
+    # every truncation point of a complete file (both ciphers), and of the headers with the END trailer kept
+    for cipher, iv in (("DES-EDE3-CBC", HEX[:16]), ("AES-128-CBC", HEX[:32])):
+        full = enc_pem(cipher, iv, 24 if cipher[0] == "D" else 32)
+        for cut in range(len(full) + 1):
+            add("7665726966", full[:cut], "prefix")
+        hdr_end = full.index(b"\n\n") + 2
+        trailer = full[full.index(b"-----END"):]
+        for cut in range(31, hdr_end + 1):
+            add("7665726966", full[:cut] + trailer, "prefix+end")
+            add("7665726966", full[:cut] + b"\n" + full[hdr_end:], "prefix+body")
+    for nm, t in samples:
+        for pw in PW:
+            add(pw, t, "sample")
+        add("7665726966", t + b"\x00", "sample-nul"); add("7665726966", t.replace(b"\n", b"\r\n"), "sample-crlf")
+    seeds = [enc_pem(), enc_pem("AES-128-CBC", HEX[:32], 32), enc_pem("AES-128-CBC", HEX[:32], 32, nl=b"\r\n")] + [t for _, t in samples]
+    while len(cases) < budget:
+        b = bytearray(r.choice(seeds))
+        if len(b) > 700:                         # keep the quadratic model search cheap: shorten the body of real keys
+            i = b.find(b"\n\n"); j = b.find(b"-----END")
+            if 0 < i < j: b = b[:i + 2 + 88] + b"\n" + b[j:]
+        for _ in range(r.choice([1, 1, 2, 3])):
+            k = r.randrange(6); pos = r.randrange(len(b)) if b else 0
+            hdr_zone = r.randrange(min(len(b), 120)) if b else 0
+            if k == 0: b[hdr_zone] = r.choice([0, 10, 13, 44, 45, 58, 32, 71, 103, 255, r.randrange(256)])
+            elif k == 1: del b[hdr_zone]
+            elif k == 2: b[hdr_zone:hdr_zone] = r.choice([b",", b"\n", b"\r\n", b"\x00", b"DEK-Info: AES-128-CBC,", b"DEK-Info: DES-EDE3-CBC,", b"Proc-Type: 4,ENCRYPTED\n", b"0", b"F" * 16])
+            elif k == 3: del b[pos:]
+            elif k == 4: b += r.choice([b"DEK-Info: AES-128-CBC," + HEX[:r.randrange(40)].encode(), b"DEK-Info: DES-EDE3-CBC," + HEX[:r.randrange(24)].encode(), b"Proc-Type: 4,ENCRYPTED"])
+            else: b[pos] = r.randrange(256)
+        add(r.choice(PW), bytes(b), "rand")
+    return cases
+
+
+# ------------------------------------------------------------------------------------------- key-loading scenarios (implementation only)
+def _pem_der(path):
+    raw = open(os.path.join(vlib.REPO, "testkeys", path), "rb").read()
+    blocks = der.pem_blocks(raw)
+    return raw, [d for _, d in blocks]
+
+def gen_keyload(ck, r, budget):
+    """valid certificate x valid key of its own / of another pair, chains of 1-3 certificates in right and wrong order,
+    chains that do not authenticate, CA bundles with broken members, PEM and concatenated-DER forms, through
+    matrixSslLoadRsaKeysMem / matrixSslLoadEcKeysMem / matrixSslLoadKeysMem + matrixSslDeleteKeys; then mutated variants"""
+    cases, meta = [], []
+    def add(loader, cert, key, ca, kind):
+        cases.append("kload %s %s %s %s" % (loader, hx(cert), hx(key), hx(ca))); meta.append(("kload", kind, loader)); ck.count("kload:" + kind)
+    mat = {}
+    for name, c, ca, k in (("rsa1024", "RSA/1024_RSA.pem", "RSA/1024_RSA_CA.pem", "RSA/1024_RSA_KEY.pem"), ("rsa2048", "RSA/2048_RSA.pem", "RSA/2048_RSA_CA.pem", "RSA/2048_RSA_KEY.pem"),
+                           ("rsa3072", "RSA/3072_RSA.pem", "RSA/3072_RSA_CA.pem", "RSA/3072_RSA_KEY.pem"), ("ec256", "EC/256_EC.pem", "EC/256_EC_CA.pem", "EC/256_EC_KEY.pem"),
+                           ("ec384", "EC/384_EC.pem", "EC/384_EC_CA.pem", "EC/384_EC_KEY.pem"), ("ecdhrsa", "ECDH_RSA/256_ECDH-RSA.pem", "ECDH_RSA/1024_ECDH-RSA_CA.pem", "ECDH_RSA/256_ECDH-RSA_KEY.pem")):
+        try:
+            cp, cd = _pem_der(c); ap, ad = _pem_der(ca); kp, kd = _pem_der(k)
+            cakey = _pem_der(ca.replace("_CA.pem", "_CA_KEY.pem"))
+            mat[name] = dict(cp=cp, cd=cd[0], ap=ap, ad=ad[0], kp=kp, kd=kd[-1], akp=cakey[0], akd=cakey[1][-1])
+        except Exception:
+            continue
+    names = list(mat)
+    loaders = ("rsa", "ec", "any")
+    def forms(parts_pem, parts_der):
+        return (b"".join(parts_pem), "pem"), (b"".join(parts_der), "der")
+    for a in names:
+        A = mat[a]
+        for b in names:
+            B = mat[b]
+            for ld in loaders:
+                if ld == "rsa" and not b.startswith("rsa"): continue
+                if ld == "ec" and b.startswith("rsa"): continue
+                rel = "own" if a == b else "foreign"
+                # single certificate
+                add(ld, A["cp"], B["kp"], A["ap"], "single-%s-key:pem" % rel)
+                add(ld, A["cd"], B["kd"], A["ad"], "single-%s-key:der" % rel)
+                # chain leaf + its CA, right and wrong order, own / foreign key
+                for (cert, f) in forms([A["cp"], A["ap"]], [A["cd"], A["ad"]]):
+                    add(ld, cert, B["kp"] if f == "pem" else B["kd"], b"", "chain2-%s-key:%s" % (rel, f))
+                for (cert, f) in forms([A["ap"], A["cp"]], [A["ad"], A["cd"]]):
+                    add(ld, cert, B["kp"] if f == "pem" else B["kd"], b"", "chain2-reversed-%s-key:%s" % (rel, f))
+                # leaf + a CA that did not sign it (does not authenticate); three certificates
+                if a != b:
+                    for (cert, f) in forms([A["cp"], B["ap"]], [A["cd"], B["ad"]]):
+                        add(ld, cert, A["kp"] if f == "pem" else A["kd"], b"", "chain2-unauthenticated:%s" % f)
+                        add(ld, cert, B["akp"] if f == "pem" else B["akd"], b"", "chain2-unauthenticated-ca-key:%s" % f)
+                    for (cert, f) in forms([A["cp"], A["ap"], B["ap"]], [A["cd"], A["ad"], B["ad"]]):
+                        add(ld, cert, (A["kp"] if f == "pem" else A["kd"]), B["ap"] if f == "pem" else B["ad"], "chain3:%s" % f)
+                        add(ld, cert, (B["kp"] if f == "pem" else B["kd"]), b"", "chain3-foreign-key:%s" % f)
+                    for (cert, f) in forms([A["cp"], B["ap"], A["ap"]], [A["cd"], B["ad"], A["ad"]]):
+                        add(ld, cert, (A["kp"] if f == "pem" else A["kd"]), b"", "chain3-broken-middle:%s" % f)
+    # CA bundles with a broken member; certificate only / key only / CA only
+    md4 = open(os.path.join(vlib.REPO, "testkeys", "RSA/1024_RSA_MD4.pem"), "rb").read()
+    for a in names:
+        A = mat[a]
+        broken = der.pem("CERTIFICATE", A["ad"][:len(A["ad"]) // 2])
+        flipped = der.pem("CERTIFICATE", A["ad"][:-20] + bytes(20))
+        for bundle, kind in ((A["ap"] + broken, "ca-bundle-truncated-member"), (broken + A["ap"], "ca-bundle-truncated-first"), (A["ap"] + md4 + A["ap"], "ca-bundle-md4-member"),
+                             (A["ap"] + flipped, "ca-bundle-bad-signature"), (A["ap"] * 3, "ca-bundle-duplicates")):
+            add("any", A["cp"], A["kp"], bundle, kind); add("rsa" if a.startswith("rsa") else "ec", b"", b"", bundle, kind + ":ca-only")
+        add("any", A["cp"], b"", b"", "cert-without-key"); add("any", b"", A["kp"], b"", "key-without-cert")
+    # mutated variants of the scenarios above: one component mutated (ASN.1-aware), the others intact
+    base = list(zip(cases, meta))
+    ders = {}
+    while len(cases) < budget and base:
+        a, b = r.choice(names), r.choice(names)
+        A, B = mat[a], mat[b]
+        which = r.randrange(4)
+        leaf, ca, key = A["cd"], A["ad"], (A["kd"] if r.random() < 0.5 else B["kd"])
+        def mut(x):
+            if x not in ders: ders[x] = (der.offsets(x), der.tree(x))
+            rz = der.mutate_resize(r, x, ders[x][1]) if r.random() < 0.2 else None
+            return (rz or der.mutate(r, x, ders[x][0]))
+        if which == 0: k, leaf = mut(leaf)
+        elif which == 1: k, ca = mut(ca)
+        elif which == 2: k, key = mut(key)
+        else:                                  # signature / key bytes flipped: parses, does not verify / match
+            k = "sigflip"; ca = ca[:-8] + bytes(x ^ 0x55 for x in ca[-8:])
+        form = r.random() < 0.5
+        chain = r.choice([[leaf, ca], [leaf], [ca, leaf], [leaf, ca, B["ad"]], [leaf, B["ad"]]])
+        cert = b"".join(chain) if form else b"".join(der.pem("CERTIFICATE", c) for c in chain)
+        keyb = key if form else der.pem("EC PRIVATE KEY" if (key == A["kd"] and a.startswith("ec")) or (key == B["kd"] and b.startswith("ec")) else "RSA PRIVATE KEY", key)
+        if len(cert) + len(keyb) > 40000: continue
+        add(r.choice(loaders), cert, keyb, r.choice([b"", A["ap"], B["ad"]]), "mutated:" + k.split("+")[0].split(":")[0])
+    return cases, meta
+
+
 # ------------------------------------------------------------------------------------------- whole-parser seeds / mutations
 def load_samples(ck):
     """[(name, op, der/pem bytes, extra token or None)] from /repo/testkeys (+ corpus/C09/samples)"""
@@ -517,7 +694,9 @@ def load_samples(ck):
             if f.endswith(".case"):
                 for l in open(os.path.join(sd, f)):
                     t = l.split()
-                    if len(t) >= 2 and not l.startswith("#"):
+                    if len(t) >= 3 and t[0] == "pkfile":
+                        seeds.append(("samples/" + f, "pkfile", bytes.fromhex(t[2]), t[1]))
+                    elif len(t) >= 2 and not l.startswith("#"):
                         seeds.append(("samples/" + f, t[0], bytes.fromhex(t[1]), " ".join(t[2:]) or None))
     seeds.append(("generated-crl", "crl", der.crl(), None))
     seeds.append(("generated-crl-empty", "crl", der.crl(revoked=()), None))
@@ -525,10 +704,37 @@ def load_samples(ck):
                                                           der.extension("bc", der.seq(der.boolean(True), der.integer(1)), True)]), None))
     return seeds
 
+def gen_pkfile(ck, r, budget, samples):
+    """file-based private-key entry points (they take the PEM password): encrypted samples with correct / wrong / empty /
+    no password, and header-level mutations of them"""
+    cases, meta = [], []
+    def add(pw, t, kind):
+        cases.append("pkfile %s %s" % (pw, hx(t))); meta.append(("pkfile", kind, "encrypted-sample")); ck.count("pkfile:" + kind)
+    texts = [t for _, t in samples]
+    plain = open(os.path.join(vlib.REPO, "testkeys", "RSA/1024_RSA_KEY.pem"), "rb").read()
+    for t in texts + [plain]:
+        for pw in PW:
+            add(pw, t, "sample")
+    for body in (0, 1, 8, 15, 16, 17, 24, 32, 33):
+        for cipher, iv in (("DES-EDE3-CBC", "0011223344556677"), ("AES-128-CBC", "00112233445566778899aabbccddeeff")):
+            add("7665726966", enc_pem(cipher, iv, body), "small-body")
+    while len(cases) < budget and texts:
+        b = bytearray(r.choice(texts))
+        for _ in range(r.choice([1, 2, 3])):
+            k = r.randrange(5); z = r.randrange(min(len(b), 140)) if b else 0; pos = r.randrange(len(b)) if b else 0
+            if k == 0: b[z] = r.choice([0, 10, 44, 58, 71, 255, r.randrange(256)])
+            elif k == 1: del b[z]
+            elif k == 2: b[z:z] = r.choice([b",", b"\n", b"\x00", b"DEK-Info: AES-128-CBC,", b"F" * 16])
+            elif k == 3: del b[pos:pos + r.choice([1, 3, 64])]
+            else: b[pos] = r.randrange(256)
+        add(r.choice(PW), bytes(b), "mutated")
+    return cases, meta
+
 def whole_line(op, b, extra):
     return "%s %s%s" % (op, hx(b), (" " + extra) if extra else "")
 
 def gen_whole(ck, r, seeds, budget):
+    seeds = [x for x in seeds if x[1] != "pkfile"]        # those are driven by gen_pkfile / gen_pempw
     cases, meta = [], []
     def add(op, b, extra, kind, name):
         cases.append(whole_line(op, b, extra)); meta.append((op, kind, name)); ck.count("whole:%s:%s" % (op, kind.split("+")[0]))
@@ -604,7 +810,7 @@ def corpus_cases():
                         out.append(l)
     return out
 
-MODEL_OPS = ("len32", "len16", "seq32", "seq16", "set32", "set16", "int", "enum", "oid", "oidcopy", "algid", "taglen", "gn", "dn", "b64", "pemchk", "pemdec", "pemlist")
+MODEL_OPS = ("len32", "len16", "seq32", "seq16", "set32", "set16", "int", "enum", "oid", "oidcopy", "algid", "taglen", "gn", "dn", "b64", "pemchk", "pemdec", "pemlist", "pempw")
 
 def is_model_case(c):
     return c.split(" ", 1)[0] in MODEL_OPS
@@ -679,6 +885,8 @@ def run(ck):
     mcases += gen_dn(ck, ck.rng("dn"), ck.budget(1500, 20000))
     mcases += gen_b64(ck, ck.rng("b64"), ck.budget(700, 10000))
     mcases += gen_pem(ck, ck.rng("pem"), ck.budget(900, 8000), sample_cert)
+    enc_samples = [(n, b) for n, op, b, e in seeds if op in ("keys", "pkfile") and b"ENCRYPTED" in b]
+    mcases += gen_pempw(ck, ck.rng("pempw"), ck.budget(2600, 12000), enc_samples)
     seen, uniq = set(), []
     for c in mcases:
         if c not in seen:
@@ -690,6 +898,8 @@ def run(ck):
                     "extensions; DNs with every attribute family, string type, multi-valued SETs, missing values, lengths to 65510, ASN.1-aware mutations; base64 with padding/garbage/"
                     "capacity variations; PEM frames with label/END/NUL/CRLF/encryption-header variations; whole parsers: ASN.1-aware mutations (14 operators) of every /repo/testkeys credential. "
                     "Integer-width boundaries: every length-consuming routine (asnCopyOid 0..600 and 2^16+k into a guarded 32-byte block, OID/INTEGER/SEQUENCE/SET headers, GeneralName and otherName type-id, DN value / attribute-type OID / attribute count, base64 length) is driven with lengths 0..35, 250..291, 508..545, 2^16-2..2^16+256 whose octets are really present; whole certificates: every leaf of a certificate carrying every parsed extension kind is resized, with all enclosing lengths re-encoded consistently, to 29..33, 126..129, 253..259, 283..289, 510..514, 540..544, 1023..1025, 4095..4097 octets (OIDs: each length), CRL leaves also to 2^16+k. "
+                    "Encrypted PEM (psPemDecode with a password argument): IV digit counts 0..40 for both ciphers in place, before BEGIN and as the very last bytes of the buffer after the END line, non-hex characters at each IV position, unknown cipher names, bodies of 0..64 bytes around the block sizes, LF/CRLF/CR, 14 header orders (DEK-Info before/after/without Proc-Type, doubled), two DEK-Info lines, Proc-Type variants, every truncation point, passwords none/empty/right/wrong, header-zone mutations of the encrypted samples. "
+                    "Key loading: every certificate x every key (own, foreign, RSA/EC crossed), chains of 1-3 in right/wrong order, unauthenticated chains, CA bundles with truncated / MD4 / bad-signature members, PEM and concatenated DER, three loaders, then matrixSslDeleteKeys; plus ASN.1-aware mutations of one component. "
                     "A modelled case is non-trivial when the library accepts it")
     # ---- modelled functions: model vs sanitizer build (authoritative) and vs plain build (run concurrently)
     res = {}
@@ -702,8 +912,19 @@ def run(ck):
         t1 = time.time()
         res["asan"] = run_faulting(ck, ha, mcases, env=ASAN_ENV, label="asan/modelled")
         ck.log("asan harness: %d modelled cases in %.1fs, %d faults" % (len(mcases), time.time() - t1, len(res["asan"][1])))
+    wcorp = [c for c in corp if not is_model_case(c)]
+    wcases, meta = gen_whole(ck, ck.rng("whole"), seeds, ck.budget(7500, 120000))
+    kcases, kmeta = gen_keyload(ck, ck.rng("keyload"), ck.budget(1500, 12000))
+    pcases, pmeta = gen_pkfile(ck, ck.rng("pkfile"), ck.budget(250, 3000), enc_samples)
+    wcases = wcorp + wcases + kcases + pcases; meta = [(c.split(" ", 1)[0], "corpus", "corpus") for c in wcorp] + meta + kmeta + pmeta
+    def run_whole():
+        t1 = time.time()
+        res["whole"] = run_faulting(ck, ha, wcases, env=ASAN_ENV, label="asan/whole")
+        ck.log("asan harness: %d whole-parser cases in %.1fs, %d faults" % (len(wcases), time.time() - t1, len(res["whole"][1])))
+    wth = threading.Thread(target=run_whole)
     th = [threading.Thread(target=run_model), threading.Thread(target=run_asan)]
     for t in th: t.start()
+    wth.start()
     t1 = time.time()
     impl_p, faults_p = run_faulting(ck, hp, mcases, label="plain/modelled")
     ck.log("plain harness: %d modelled cases in %.1fs" % (len(mcases), time.time() - t1))
@@ -726,7 +947,7 @@ def run(ck):
             # (c09_taglen_unsafe_partial); outside it the fault must merely coincide with the model's Fault
             continue
         ck.spec_violation("fault:%s:%s" % (op, summ), "sanitizer abort in a modelled parser primitive (%s) on %s" % (summ, op),
-                          {"harness": "h_asn (asan)", "case": c[:4000], "observed": "FAULT " + summ, "expected_by_spec": "an error code or success, no memory error / undefined behaviour",
+                          {"harness": "h_asn (asan)", "case": c, "observed": "FAULT " + summ, "expected_by_spec": "an error code or success, no memory error / undefined behaviour",
                            "model": model[idx] if idx < len(model) else None})
     for i, (c, o) in enumerate(zip(mcases, impl_a)):
         if o.startswith("ok") and c.startswith("gn "):
@@ -734,20 +955,16 @@ def run(ck):
                 f = ent.split(":")
                 if len(f) >= 4 and f[3] == "T0":
                     ck.spec_violation("gn-unterminated:id=%s" % f[0], "psX509ParseCert returned a subjectAltName entry whose data is not NUL-terminated inside its allocation",
-                                      {"harness": "h_asn", "case": c[:4000], "observed": o[:600], "expected_by_spec": "every entry T1"})
+                                      {"harness": "h_asn", "case": c, "observed": o[:600], "expected_by_spec": "every entry T1"})
                 if len(f) >= 6 and f[0] in ("1", "2", "6") and f[5] != "S" + f[1]:
                     ck.spec_violation("gn-len-mismatch:id=%s" % f[0], "recorded dataLen differs from the C-string length of a dNSName/rfc822Name/URI entry",
-                                      {"harness": "h_asn", "case": c[:4000], "observed": o[:600], "expected_by_spec": "strlen(data) == dataLen"})
+                                      {"harness": "h_asn", "case": c, "observed": o[:600], "expected_by_spec": "strlen(data) == dataLen"})
         if o.startswith("ok") and c.startswith("dn ") and ":T0:" in o:
             ck.spec_violation("dn-unterminated", "psX509GetDNAttributes stored an attribute string without its terminators / with a length outside its allocation",
-                              {"harness": "h_asn", "case": c[:4000], "observed": o[:600], "expected_by_spec": "every attribute T1"})
-    # ---- whole parsers: exploration under the sanitizers + consistency walker
-    wcorp = [c for c in corp if not is_model_case(c)]
-    wcases, meta = gen_whole(ck, ck.rng("whole"), seeds, ck.budget(7500, 120000))
-    wcases = wcorp + wcases; meta = [(c.split(" ", 1)[0], "corpus", "corpus")] * len(wcorp) + meta
-    t1 = time.time()
-    wout, wfaults = run_faulting(ck, ha, wcases, env=ASAN_ENV, label="asan/whole")
-    ck.log("asan harness: %d whole-parser cases in %.1fs, %d faults" % (len(wcases), time.time() - t1, len(wfaults)))
+                              {"harness": "h_asn", "case": c, "observed": o[:600], "expected_by_spec": "every attribute T1"})
+    # ---- whole parsers: exploration under the sanitizers + consistency walker (run concurrently, see above)
+    wth.join()
+    wout, wfaults = res["whole"]
     ck.cov["evaluations"] += len(wcases)
     nacc = 0
     seedfail = []
@@ -756,7 +973,7 @@ def run(ck):
             ck.count("whole-out:FAULT")
             ck.spec_violation("fault:%s:%s" % (op, o.split(" ", 1)[1] if " " in o else "?"),
                               "sanitizer abort inside %s on a mutated credential (%s of %s)" % (op, kind, name),
-                              {"harness": "h_asn (asan)", "case": c[:6000], "observed": o, "expected_by_spec": "an error code or success, no memory error / undefined behaviour"})
+                              {"harness": "h_asn (asan)", "case": c, "observed": o, "expected_by_spec": "an error code or success, no memory error / undefined behaviour"})
             continue
         m = re.match(r"rc=(ok|fail) C=(\d) L=(-?\d+)", o)
         if not m:
@@ -769,10 +986,10 @@ def run(ck):
         if m.group(2) != "1":
             ck.spec_violation("inconsistent:%s:%s" % (op, (re.search(r"why=(\S+)", o) or [None, "?"])[1]),
                               "%s returned an object with a length outside its buffer or an unterminated string" % op,
-                              {"harness": "h_asn (asan)", "case": c[:6000], "observed": o, "expected_by_spec": "C=1"})
+                              {"harness": "h_asn (asan)", "case": c, "observed": o, "expected_by_spec": "C=1"})
         if int(m.group(3)) > 0:
             ck.spec_violation("leak:%s:%s" % (op, m.group(1)), "%s leaves %s heap block(s) allocated after its result was freed" % (op, m.group(3)),
-                              {"harness": "h_asn (asan)", "case": c[:6000], "observed": o, "expected_by_spec": "L=0"})
+                              {"harness": "h_asn (asan)", "case": c, "observed": o, "expected_by_spec": "L=0"})
     ck.cov["explored_only"] = EXPLORED_ONLY
     ck.cov["whole_parser_cases"] = len(wcases)
     ck.cov["whole_parser_accepted"] = nacc
